@@ -242,7 +242,9 @@ func runC07Server(c C07Case, info *kit.Info) *kit.Finding {
 		mat := []kit.KeySpec{keys0[0], keys0[1], keys0[2], keys1[1]}[op.Label%4]
 		key := mat.Key()
 		salt := kit.DetBytes(c.SaltSeed*1_000_003+int64(op.Label), key.SaltSize())
-		wire := kit.EncodeStream(key, salt, append(kit.SocksAddrFor("192.0.2.99:80", false), "data"...), nil)
+		// the handshake is (key, salt); what follows the salt differs from one presentation to the next (a replay
+		// need not be byte-identical)
+		wire := kit.EncodeStream(key, salt, append(kit.SocksAddrFor("192.0.2.99:80", false), kit.DetBytes(int64(i)+c.SaltSeed, 4+i%9)...), nil)
 		// which id does this service attribute the material to?
 		var svcKeys = [][]kit.KeySpec{keys0, keys1}[op.Svc]
 		matchedID := ""
